@@ -11,6 +11,7 @@ import Driver.C12
 import Driver.C09
 import Driver.C16
 import Driver.C15
+import Driver.Life
 /-! nvdriver: line protocol. Each input line `<PROP> <tokens…>` is answered by exactly one line:
     `ok[ …]` | `diff …` (model and implementation disagree) | `specviol …` (the implementation's
     own answer violates the property predicate) | `bad-op`. -/
@@ -25,6 +26,7 @@ structure DS where
   c13 : Driver.C13.S := {}
   c09 : Driver.C09.S := {}
   c15 : Driver.C15.S := {}
+  life : Driver.Life.S := {}
 
 def dispatch (d : DS) (line : String) : DS × String :=
   match (line.trimAscii.toString.splitOn " ").filter (· ≠ "") with
@@ -47,6 +49,7 @@ def dispatch (d : DS) (line : String) : DS × String :=
   | "C09" :: rest => let (s, o) := Driver.C09.handle d.c09 rest; ({ d with c09 := s }, o)
   | "C12" :: rest => (d, Driver.C12.handle rest)
   | "C15" :: rest => let (s, o) := Driver.C15.handle d.c15 rest; ({ d with c15 := s }, o)
+  | "C05L" :: rest => let (s, o) := Driver.Life.handle d.life rest; ({ d with life := s }, o)
   | "C16" :: rest => (d, Driver.C16.handle rest)
   | "C14" :: rest => (d, Driver.C14.handle rest)
   | "C04" :: rest => (d, Driver.C04.handle rest)
